@@ -57,6 +57,7 @@ def nud__map_sequence_type_or_constructor(self: XPathFunction) \
         self.parser.parse_occurrence(self[-1])
 
     self.parser.advance(')')
+    self.parser.parse_occurrence(self)
     return self
 
 
